@@ -10,6 +10,7 @@ import (
 // C02 - only CRLF.CRLF ends DATA; commands resume exactly after it.
 
 type c02X struct {
+	Flow       bool   // flow-control stratum: unbuffered network, long message, backend that stops reading early
 	Want       []byte // reference message
 	Stream     []byte
 	NRcpt      int
@@ -66,6 +67,17 @@ func genC02(t *Tape, tier string) *Scenario {
 			nb++
 		}
 	}
+	if t.Chance(1, 10) {
+		// flow-control stratum: a network that buffers nothing (a Write returns when the peer
+		// has read it), a long message and a backend that stops reading early: the server
+		// has to take the rest of the message before the client can get to reading the reply
+		x.Flow = true
+		var pad []byte
+		for i, n := 0, 150+t.Intn(60); i < n; i++ {
+			pad = append(pad, line("padding line %04d of a long message, sixty octets or so wide", i)...)
+		}
+		body = append(pad, body...)
+	}
 	stream := append(append([]byte{}, body...), "\r\n.\r\n"...)
 	want, consumed, _ := unstuff(stream)
 	stream = stream[:consumed]
@@ -86,6 +98,9 @@ func genC02(t *Tape, tier string) *Scenario {
 	dp.ReadMode = t.Named("c02read", 3)
 	if dp.ReadMode == readK {
 		dp.ReadK = t.Intn(len(want) + 1)
+	}
+	if x.Flow && dp.ReadMode == readAll {
+		dp.ReadMode, dp.ReadK = readK, t.Intn(2000)
 	}
 	x.ReadAll = dp.ReadMode == readAll
 	switch t.Named("c02verdict", 3) {
@@ -122,7 +137,7 @@ func genC02(t *Tape, tier string) *Scenario {
 	}
 	glue := t.Bool()
 	body1 := Step{Kind: kBody, Data: stream, Need: 354, Segs: drawSegs(t, len(stream), special), Gaps: drawGaps(t), Glue: glue}
-	if t.Chance(1, 12) && len(stream) > 8 {
+	if !x.Flow && t.Chance(1, 12) && len(stream) > 8 {
 		// fault stratum: the client stalls inside the message until the server's read deadline has passed
 		x.Stall = true
 		sc.Srv.ReadTO = 10 * time.Minute
@@ -130,7 +145,7 @@ func genC02(t *Tape, tier string) *Scenario {
 		body1.Segs = []int{k, len(stream)}
 		body1.Gaps = []Dur{0, 11 * time.Minute}
 	}
-	if sc.BE.Flavor == beLMTP && len(dp.Statuses) > 0 && dp.Statuses[0].When == 0 && !x.Stall && !x.Panic && len(stream) > 8 && t.Chance(1, 2) {
+	if sc.BE.Flavor == beLMTP && len(dp.Statuses) > 0 && dp.Statuses[0].When == 0 && !x.Stall && !x.Panic && !x.Flow && len(stream) > 8 && t.Chance(1, 2) {
 		// fault stratum: the backend reports a recipient's status before it has read the
 		// message, the rest of which is still on its way, and the write of that early
 		// reply fails (the client is busy sending): the message text that follows is
@@ -182,6 +197,24 @@ func genC02(t *Tape, tier string) *Scenario {
 		steps = append(steps, st)
 	}
 	steps = append(steps, Step{Kind: kQuit, Data: []byte("QUIT\r\n")})
+	if x.Flow {
+		// strictly one step at a time: a client that writes while a reply waits to be read
+		// would block itself
+		for i := range steps {
+			st := &steps[i]
+			st.Glue, st.Segs, st.Gaps = false, nil, nil
+			switch st.Kind {
+			case kBody:
+				st.Wait = -1
+			case kMarker, kQuit:
+				st.Wait = 1
+			}
+		}
+		cs.SrvFaults.Rendezvous = true
+		cs.SrvCaps = nil
+		sc.Srv.ReadTO, sc.Srv.WriteTO = 0, 0
+		sc.BE.Conns[0].Data[0].ParkReads = nil
+	}
 	cs.Steps = steps
 	cs.defaults()
 	sc.Conns = []ConnScript{cs}
@@ -298,6 +331,9 @@ func classifyC02(sc *Scenario, h *History, st *Stats) string {
 	if len(evs) == 1 && len(evs[0].Read) < len(x.Want) {
 		st.Probes["backend_left_message_unread"]++
 	}
+	if x.Flow {
+		st.Faults["unbuffered_network_long_message_backend_stops_reading_early"]++
+	}
 	if x.Stall {
 		st.Faults["client_stalls_past_read_deadline_inside_message"]++
 	}
@@ -325,7 +361,7 @@ func classifyC02(sc *Scenario, h *History, st *Stats) string {
 func init() {
 	register(&Property{
 		ID: "C02", Level: "exploration",
-		Rule:     "one DATA message whose text contains bait command lines and end-marker look-alikes (LF.LF, LF.CRLF, CRLF.LF, CR.CR, ...), then the real end marker, then 1-4 pipelined marker commands and QUIT; crossed with backend {reads all, k octets, nothing} x {accept, SMTPError, plain error} x size limit {none, below, at, above} x {SMTP, LMTP plain backend, LMTP per-recipient backend} (systematic product in the sweep) under drawn segmentation (markers share the end marker's segment in half the runs). Non-trivial: the body contains a bait or a look-alike; distinct by (class string of the stream, mode, read mode, verdict, limit kind, marker list). Fault strata: the client stalls inside the message past ReadTimeout; the backend panics at entry, after a partial read or at the end (only 'never executed as a command' is judged there).",
+		Rule:     "one DATA message whose text contains bait command lines and end-marker look-alikes (LF.LF, LF.CRLF, CRLF.LF, CR.CR, ...), then the real end marker, then 1-4 pipelined marker commands and QUIT; crossed with backend {reads all, k octets, nothing} x {accept, SMTPError, plain error} x size limit {none, below, at, above} x {SMTP, LMTP plain backend, LMTP per-recipient backend} (systematic product in the sweep) under drawn segmentation (markers share the end marker's segment in half the runs). Non-trivial: the body contains a bait or a look-alike; distinct by (class string of the stream, mode, read mode, verdict, limit kind, marker list). Fault strata: the client stalls inside the message past ReadTimeout; the backend panics at entry, after a partial read or at the end (only 'never executed as a command' is judged there). Flow-control stratum: a network that buffers nothing (a Write returns when the peer has read it), a message of 10-14 kB, a backend that stops reading within the first 2000 octets, every step lock-step.",
 		Gen:      genC02,
 		Check:    checkC02,
 		Classify: classifyC02,
@@ -351,7 +387,7 @@ func init() {
 		Real:        []string{"smtp.Server.Serve/handleConn", "smtp.Conn command loop, handleData, handleDataLMTP", "dataReader", "lineLimitReader", "net/textproto", "bufio"},
 		Stub:        []string{"net.Listener (SimListener)", "net.Conn (SimConn)", "Backend/Session/LMTPSession (SimBackend)", "clock (synctest)", "SMTP client (raw driver)"},
 		Assumptions: []string{"acceptance of the message itself is not judged here (C06 does)", "go-smtp built with go1.26.8"},
-		Required:    []string{"bait_command_in_body", "terminator_lookalike_in_body", "message_over_limit_lmtp", "client_stalls_past_read_deadline_inside_message", "marker_shares_segment_with_end_marker", "backend_left_message_unread", "backend_panics_with_message_text_unread", "early_recipient_reply_cannot_be_written"},
+		Required:    []string{"unbuffered_network_long_message_backend_stops_reading_early", "bait_command_in_body", "terminator_lookalike_in_body", "message_over_limit_lmtp", "client_stalls_past_read_deadline_inside_message", "marker_shares_segment_with_end_marker", "backend_left_message_unread", "backend_panics_with_message_text_unread", "early_recipient_reply_cannot_be_written"},
 		QuickRuns:   300000, ThoroughRuns: 6000000,
 	})
 }
